@@ -221,6 +221,15 @@ def rule_eq(repo):
             alts = [v]
             if isinstance(v, ast.IfExp):
                 alts = [v.body, v.orelse]
+                # the guard must test the very constant that the other branch adds
+                t = v.test
+                guarded = None
+                if isinstance(t, ast.Compare) and len(t.ops) == 1 and isinstance(t.comparators[0], ast.Constant) and t.comparators[0].value is None:
+                    guarded = dotted(t.left)
+                if guarded != 'self.' + c:
+                    ok_all = False
+                    res.add(Finding('C15.EQ', f, 'LTI.%s adds self.%s under a guard on `%s`: with one constant given and the other None the offset is '
+                                    'dropped (or None is added)' % (meth, c, src(t)), node=r, construct=meth + ' guard'))
             for a in alts:
                 terms = _signed_terms(a)
                 got = set()
@@ -256,5 +265,28 @@ def rule_eq(repo):
     return res
 
 
+def rule_pure(repo):
+    from .. import effects
+    res = RuleResult('C15.PURE', 'the linearisation getters (A, B, C, D, c1, c2 of LTI/LTV/NLS) are pure: reading one does not change the stored '
+                     'reference point or any other state of the system', floor=12)
+    S, _ = effects.compute_summaries(repo)
+    for cname in ('LTI', 'NLS'):
+        ci = repo.cls(DYN, cname)
+        for name in ('A', 'B', 'C', 'D', 'c1', 'c2'):
+            f = ci.methods.get(name)
+            if f is None:
+                continue
+            s = S[f.fq]
+            writes = [n for n in ast.walk(f.node) if isinstance(n, ast.Attribute) and isinstance(n.ctx, ast.Store) and dotted(n.value) == 'self']
+            res.inst({'function': f.fq, 'mutates': sorted(str(x) for x in s.mut), 'attribute_stores': len(writes)}, f.fq)
+            for (pi, path) in sorted(s.mut, key=str):
+                node, why, chain = s.sinks[(pi, path)]
+                res.add(Finding('C15.PURE', f, 'reading %s.%s changes `self%s` in place (%s): every further read returns a different value' % (
+                    cname, name, ''.join('.' + p for p in path), why), node=node if isinstance(node, ast.AST) else None, construct='getter mutates ' + '.'.join(path)))
+            for w in writes:
+                res.add(Finding('C15.PURE', f, 'the getter %s.%s assigns self.%s' % (cname, name, w.attr), node=w))
+    return res
+
+
 def rules(repo, tier):
-    return [rule_own_hook(repo), rule_super(repo), rule_lin(repo), rule_eq(repo)]
+    return [rule_own_hook(repo), rule_super(repo), rule_lin(repo), rule_eq(repo), rule_pure(repo)]
